@@ -19,6 +19,9 @@ use std::sync::{Arc, Mutex};
 use std::time::{Duration, Instant};
 
 pub const SHARDS: u64 = 16;
+/// How many earlier cases of a shard are saved with a failing case.
+const HISTORY_LEN: usize = 48;
+
 pub const WATCHDOG_SECS: u64 = 20;
 
 #[derive(Clone, Copy, Debug, PartialEq, Eq)]
@@ -249,6 +252,7 @@ fn write_replay<C: Serialize>(
     case: &C,
     message: &str,
     found_by: &str,
+    history: &[C],
 ) -> PathBuf {
     let dir = root.join("replays");
     let _ = std::fs::create_dir_all(&dir);
@@ -259,6 +263,11 @@ fn write_replay<C: Serialize>(
         "found_by": found_by,
         "message": message,
         "case": case,
+        // the cases the same shard (one thread) had judged immediately before
+        // this one, oldest first: `--replay` runs them before the case, so
+        // that a failure which needs state left behind by earlier calls (a
+        // cache, a reused buffer) reproduces in a fresh process
+        "history": history,
     });
     let _ = std::fs::write(&path, serde_json::to_string_pretty(&v).unwrap());
     path
@@ -301,6 +310,21 @@ pub fn replay<P: Property>(root: &Path, path: &Path, strict: bool, build: &str) 
     }
     let _ = root;
     let mode = if strict { Mode::Strict } else { Mode::Normal };
+    // the recorded history of the shard, if any: same thread, same order
+    // (outcomes are not judged here; a failure that does not depend on
+    // earlier calls reproduces regardless)
+    if let Some(h) = meta.get("history").and_then(|h| h.as_array()) {
+        let mut n = 0;
+        for v in h {
+            if let Ok(c) = serde_json::from_value::<P::Case>(v.clone()) {
+                let _ = guarded_check::<P>(&c, Mode::Normal);
+                n += 1;
+            }
+        }
+        if n > 0 {
+            println!("REPLAY property={} build={build}: ran the {n} recorded earlier cases of the shard first", P::ID);
+        }
+    }
     match guarded_check::<P>(&case, mode) {
         Guarded::Out(Outcome::Fail(m)) => {
             println!("REPLAY property={} build={build}: FAIL: {m}", P::ID);
@@ -472,6 +496,7 @@ pub fn run<P: Property>(args: &RunArgs) -> i32 {
     struct ShardOut<C> {
         stats: Stats,
         failure: Option<(C, String)>,
+        history: Vec<C>,
         harness_bug: Option<String>,
         aborted: Option<String>,
     }
@@ -543,6 +568,8 @@ pub fn run<P: Property>(args: &RunArgs) -> i32 {
                         let stats = RefCell::new(Stats::default());
                         let failed = Cell::new(false);
                         let bug: RefCell<Option<String>> = RefCell::new(None);
+                        let history: RefCell<std::collections::VecDeque<P::Case>> =
+                            RefCell::new(std::collections::VecDeque::new());
                         let mut runner = TestRunner::new(cfg);
                         let strat = P::strategy(tier);
                         let slot = &slots[shard as usize];
@@ -559,6 +586,13 @@ pub fn run<P: Property>(args: &RunArgs) -> i32 {
                             let g = guarded_check::<P>(&case, Mode::Normal);
                             slot.started_ms.store(0, Ordering::Relaxed);
                             let counting = !failed.get();
+                            if counting && !matches!(g, Guarded::Out(Outcome::Fail(_))) {
+                                let mut h = history.borrow_mut();
+                                h.push_back(case.clone());
+                                if h.len() > HISTORY_LEN {
+                                    h.pop_front();
+                                }
+                            }
                             let mut st = stats.borrow_mut();
                             if counting {
                                 st.generated += 1;
@@ -633,6 +667,7 @@ pub fn run<P: Property>(args: &RunArgs) -> i32 {
                         let mut out = ShardOut {
                             stats: stats.into_inner(),
                             failure: None,
+                            history: Vec::new(),
                             harness_bug: bug.into_inner(),
                             aborted: None,
                         };
@@ -645,6 +680,7 @@ pub fn run<P: Property>(args: &RunArgs) -> i32 {
                                 } else {
                                     stop.store(true, Ordering::Relaxed);
                                     out.failure = Some((case, r));
+                                    out.history = history.into_inner().into_iter().collect();
                                 }
                             }
                             Err(TestError::Abort(reason)) => {
@@ -684,6 +720,7 @@ pub fn run<P: Property>(args: &RunArgs) -> i32 {
                     outs.push(ShardOut {
                         stats: Stats::default(),
                         failure: None,
+                        history: Vec::new(),
                         harness_bug: Some(format!("shard panicked outside the check at {l}: {m}")),
                         aborted: None,
                     });
@@ -696,6 +733,7 @@ pub fn run<P: Property>(args: &RunArgs) -> i32 {
     // merge
     let mut st = Stats::default();
     let mut first_failure: Option<(P::Case, String)> = None;
+    let mut first_history: Vec<P::Case> = Vec::new();
     for o in outs {
         st.evaluations += o.stats.evaluations;
         st.generated += o.stats.generated;
@@ -723,8 +761,9 @@ pub fn run<P: Property>(args: &RunArgs) -> i32 {
         if let Some(a) = o.aborted {
             infra_errors.push(format!("proptest aborted: {a}"));
         }
-        if first_failure.is_none() {
+        if first_failure.is_none() && o.failure.is_some() {
             first_failure = o.failure;
+            first_history = o.history;
         }
     }
     if let Some((case, msg)) = first_failure {
@@ -736,6 +775,7 @@ pub fn run<P: Property>(args: &RunArgs) -> i32 {
             &case,
             &msg,
             "proptest (shrunk)",
+            &first_history,
         );
         println!("FAIL property={id} build={build}: {msg}");
         println!(
@@ -767,6 +807,7 @@ pub fn run<P: Property>(args: &RunArgs) -> i32 {
                         &case,
                         &msg,
                         "exhaustive sweep",
+                        &[],
                     );
                     println!("FAIL property={id} build={build}: {msg}");
                     violations.push(Violation {
